@@ -6,6 +6,13 @@ ROOT = os.path.dirname(os.path.dirname(os.path.abspath(__file__)))
 
 # id -> (category, technique, level text, level note, design ref)
 CHECKS = {
+ "C08": ("exploration",
+   "stateful proptest histories of sink operations and inbound traffic plus deterministic scenarios; whole-stream parse with the reference decoder and a supplied-bytes oracle",
+   "Plain, failing (over-long topic/user property, over the peer's Maximum Packet Size, id in use, send while a payload is owed) and streamed sends (QoS 0/1, arbitrary chunkings, under-/over-delivery, drops, failing starts) interleaved with inbound PUBLISH/PINGREQ/SUBSCRIBE "
+   "whose handlers may be held and released mid-stream, acknowledgements, back-pressure stalls, close and fault paths, four roles. The complete output parses as whole packets (incomplete last frame only for a live stream in progress or after the connection was aborted); "
+   "every request frame belongs to exactly one operation that did not fail locally and carries the supplied payload; streamed payload bytes on the wire are exactly the accepted chunks in order; successful sends are on the wire.",
+   "Trusted: reference decoder; whether the connection survives a response falling due inside a streamed payload is not judged.",
+   "DESIGN.md section 3 C08"),
  "C06": ("exploration",
    "stateful proptest histories plus a deterministic deviation matrix and an id wrap-around run; acknowledgement-log oracle",
    "Deviation matrix (every send kind x every acknowledgement type x position 0..2, wrong id, duplicate, reordered, unsolicited; four roles), one run of 65545 automatic ids across the 65535->1 wrap per role, and generated histories "
